@@ -15,6 +15,7 @@
 
 #include "common/runner.h"
 #include "oomd/Log.h"
+#include "oomd/PluginRegistry.h"
 #include "oomd/OomdContext.h"
 #include "oomd/config/ConfigCompiler.h"
 #include "oomd/config/JsonConfigParser.h"
@@ -29,16 +30,40 @@ const char* kBase =
 // contents: 0 valid (1 action), 1 valid (2 actions), 2 not JSON, 3 half-written valid, 4 valid JSON that does not compile (unknown ruleset),
 // 5 valid JSON whose compilation used to throw (post_action_delay "x")
 const char* kContentName[] = {"valid1", "valid2", "not-json", "half-written", "unknown-ruleset", "bad-delay"};
-std::string contentOf(int c) {
-  std::string v1 = "{\"rulesets\":[{\"name\":\"R1\",\"actions\":[{\"name\":\"continue\",\"args\":{}}]}]}";
-  std::string v2 = "{\"rulesets\":[{\"name\":\"R1\",\"actions\":[{\"name\":\"continue\",\"args\":{}},{\"name\":\"continue\",\"args\":{}}]}]}";
+// Every written content carries a unique stamp in the ids of its actions (`verif_mark` plugins that record their id when
+// run): which drop-ins are active - and in which order they are evaluated - is OBSERVED from one tick's marks, through
+// public behaviour only.
+std::vector<std::string> g_marks;
+class Mark : public Oomd::Engine::BasePlugin {
+ public:
+  int init(const Oomd::Engine::PluginArgs& args, const Oomd::PluginConstructionContext&) override {
+    auto it = args.find("id");
+    id_ = it == args.end() ? "?" : it->second;
+    return 0;
+  }
+  Oomd::Engine::PluginRet run(Oomd::OomdContext&) override {
+    g_marks.push_back(id_);
+    return Oomd::Engine::PluginRet::CONTINUE;
+  }
+  static Mark* create() { return new Mark(); }
+
+ private:
+  std::string id_;
+};
+using namespace Oomd;
+REGISTER_PLUGIN(verif_mark, Mark::create);
+
+std::string contentOf(int c, int stamp) {
+  auto mark = [&](int k) { return "{\"name\":\"verif_mark\",\"args\":{\"id\":\"" + std::to_string(stamp) + "." + std::to_string(k) + "\"}}"; };
+  std::string v1 = "{\"rulesets\":[{\"name\":\"R1\",\"actions\":[" + mark(0) + "]}]}";
+  std::string v2 = "{\"rulesets\":[{\"name\":\"R1\",\"actions\":[" + mark(0) + "," + mark(1) + "]}]}";
   switch (c) {
     case 0: return v1;
     case 1: return v2;
     case 2: return "this is { not json";
     case 3: return v1.substr(0, v1.size() / 2);
-    case 4: return "{\"rulesets\":[{\"name\":\"R9\",\"actions\":[{\"name\":\"continue\",\"args\":{}}]}]}";
-    case 5: return "{\"rulesets\":[{\"name\":\"R1\",\"post_action_delay\":\"x\",\"actions\":[{\"name\":\"continue\",\"args\":{}}]}]}";
+    case 4: return "{\"rulesets\":[{\"name\":\"R9\",\"actions\":[" + mark(0) + "]}]}";
+    case 5: return "{\"rulesets\":[{\"name\":\"R1\",\"post_action_delay\":\"x\",\"actions\":[" + mark(0) + "]}]}";
   }
   return "";
 }
@@ -154,7 +179,13 @@ struct C14 : vr::Driver {
       std::string dir = top + "/dropins";
       mkdir(top.c_str(), 0700);
       mkdir(dir.c_str(), 0700);
-      for (auto& p : c.preexisting) writeFile(dir + "/" + p.first, contentOf(p.second), O_WRONLY | O_CREAT | O_TRUNC);
+      int nextStamp = 1;
+      std::map<std::string, int> stampOf;
+      for (auto& p : c.preexisting) {
+        stampOf[p.first] = nextStamp++;
+        writeFile(dir + "/" + p.first, contentOf(p.second, stampOf[p.first]), O_WRONLY | O_CREAT | O_TRUNC);
+      }
+      g_marks.clear();
       Oomd::Config2::JsonConfigParser parser;
       auto root = parser.parse(kBase);
       Oomd::PluginConstructionContext cctx("/sys/fs/cgroup");
@@ -167,8 +198,8 @@ struct C14 : vr::Driver {
         engine->runOnce(ctx);
       };
       // the file system as the environment leaves it: file -> content index
-      std::map<std::string, int> fsModel;
-      for (auto& p : c.preexisting) fsModel[p.first] = p.second;
+      std::map<std::string, std::pair<int, int>> fsModel;  // file -> (content index, stamp of that write)
+      for (auto& p : c.preexisting) fsModel[p.first] = {p.second, stampOf[p.first]};
       // hand-shake between the environment and the main loop (plain variables: one thread runs at a time)
       bool svcCreated = false, tickRequested = false, tickStarted = false, envDone = false;
       std::thread env([&] {
@@ -188,28 +219,30 @@ struct C14 : vr::Driver {
           vs::yield("env op");
           switch (o.kind) {
             case 'W':
-              writeFile(p, contentOf(o.content), O_WRONLY | O_CREAT | O_TRUNC);
-              fsModel[o.file] = o.content;
+              fsModel[o.file] = {o.content, nextStamp};
+              writeFile(p, contentOf(o.content, nextStamp++), O_WRONLY | O_CREAT | O_TRUNC);
               break;
             case 'T': {
               int fd = ::open(p.c_str(), O_WRONLY | O_CREAT | O_TRUNC, 0644);
               vs::yield("env between truncate and write");
-              std::string d = contentOf(o.content);
+              int st = nextStamp++;
+              std::string d = contentOf(o.content, st);
               if (fd >= 0) {
                 (void)!::write(fd, d.data(), d.size() / 2);
                 vs::yield("env mid-write");
                 (void)!::write(fd, d.data() + d.size() / 2, d.size() - d.size() / 2);
                 ::close(fd);
               }
-              fsModel[o.file] = o.content;
+              fsModel[o.file] = {o.content, st};
               break;
             }
             case 'A': {
               std::string tmp = dir + "/.tmp-" + o.file;
-              writeFile(tmp, contentOf(o.content), O_WRONLY | O_CREAT | O_TRUNC);
+              int st = nextStamp++;
+              writeFile(tmp, contentOf(o.content, st), O_WRONLY | O_CREAT | O_TRUNC);
               vs::yield("env before rename");
               ::rename(tmp.c_str(), p.c_str());
-              fsModel[o.file] = o.content;
+              fsModel[o.file] = {o.content, st};
               break;
             }
             case 'D':
@@ -258,21 +291,33 @@ struct C14 : vr::Driver {
       // the file system is quiet now: let everything pending be processed, then three more ticks
       for (int k = 0; k < 3; k++) {
         vs::pointIf([] { return vs::othersBlocked(); }, "main waits for quiescence");
+        g_marks.clear();
         tick();
       }
-      // ---- oracle: active drop-ins == valid non-dot files present, each with its latest content
-      std::map<std::string, int> want, got;
+      // ---- oracle: active drop-ins == valid non-dot files present, each with its latest content.  Observed from the marks of
+      // the last tick: "<stamp>.<k>" per executed drop-in action, in evaluation order.
+      std::map<std::string, int> want, got;  // "stamp" -> number of actions
+      std::map<int, std::string> fileOfStamp;
       for (auto& kv : fsModel)
-        if (kv.first[0] != '.' && versionOf(kv.second)) want[kv.first] = versionOf(kv.second);
-      std::string order;
-      for (auto& b : engine->rulesets_)
-        for (auto& d : b.dropins) {
-          got[d.tag] = (int)d.ruleset->action_group_.size();
-          order += d.tag + ",";
+        if (kv.first[0] != '.' && versionOf(kv.second.first)) {
+          want["#" + std::to_string(kv.second.second) + "(" + kv.first + ")"] = versionOf(kv.second.first);
+          fileOfStamp[kv.second.second] = kv.first;
         }
+      std::string order;
+      {
+        std::string lastStamp;
+        for (auto& mk : g_marks) {
+          std::string st = mk.substr(0, mk.find('.'));
+          int sti = atoi(st.c_str());
+          std::string name = "#" + st + "(" + (fileOfStamp.count(sti) ? fileOfStamp[sti] : std::string("superseded or removed content")) + ")";
+          got[name]++;
+          if (st != lastStamp) order += (fileOfStamp.count(sti) ? fileOfStamp[sti] : "?") + ",";
+          lastStamp = st;
+        }
+      }
       auto show = [](const std::map<std::string, int>& m) {
         std::string s = "{";
-        for (auto& kv : m) s += kv.first + ":v" + std::to_string(kv.second) + " ";
+        for (auto& kv : m) s += kv.first + ":" + std::to_string(kv.second) + "action(s) ";
         return s + "}";
       };
       if (got != want) {
@@ -281,7 +326,8 @@ struct C14 : vr::Driver {
       } else if (c.ops.empty() && c.preexisting.size() >= 2) {
         // start-up: loaded in name order => newest (front) is the last name
         std::vector<std::string> names;
-        for (auto& kv : want) names.push_back(kv.first);
+        for (auto& kv : fileOfStamp) names.push_back(kv.second);
+        std::sort(names.begin(), names.end());
         std::string wantOrder;
         for (auto it = names.rbegin(); it != names.rend(); ++it) wantOrder += *it + ",";
         if (order != wantOrder) {
